@@ -18,6 +18,10 @@ POOLS = {
     # blanks at the edges and repeated blanks
     'edgespace': [' lead', 'trail ', ' both ', 'in  ner', '  two', 'end  ', ' a b ', 'x ', ' y', ' z z', 'w  w ', '  v  ',
                   ' u', 't '],
+    # all names equal up to letter case (only for checks where letter case must not matter)
+    'casepair': ['abc', 'ABC', 'Abc', 'aBc', 'abC', 'ABc', 'aBC', 'AbC'],
+    # names that are substrings of one another
+    'substr': ['F1', 'F10', 'F100', 'F', 'F1a', 'aF1', 'Car', 'CarRadio', 'Radio', 'Ca', 'r', 'adi', 'F10a', 'dio'],
     'punct': ['a-b', 'x:y', '#1', 'a/b', '(p)', 'a,b', 'x=y', 'a&b', 'p|q', 'ab!', 'q?r',
               'a+b', 's;c', 'b[0]', 'c{d}', 'a<b', 'a>b', 'at@', 'pct%', 'til~de'],
     'uvlkw': ['features', 'or', 'mandatory', 'true', 'Integer', 'sum', 'constraints',
@@ -69,7 +73,7 @@ class Naming:
         pool = POOLS[cls]
         for j in range(len(pool)):
             cand = pool[(self._offs[cls] + idx + j) % len(pool)]
-            if cand not in self._used and cand.lower() not in {u.lower() for u in self._used}:
+            if cand not in self._used and (cls == 'casepair' or cand.lower() not in {u.lower() for u in self._used}):
                 return cand
         n = 0
         while True:  # pool exhausted: derive a fresh one
